@@ -590,6 +590,40 @@ Section Deep.
         rewrite bool_decide_eq_false_2 by (intros [? ?]; discriminate). cbn. unfold absf. cbn. now rewrite Hty.
       + rewrite !lookup_insert_ne by congruence. reflexivity.
   Qed.
+  (** ** append_file on a DIRECTORY that only the lower layer has, at any depth: the call fails, and although
+      it has copied the parent chain up it shows the same filesystem afterwards: no file appears at p, so the
+      directory's children keep a directory for a parent; the lower layer is untouched, no handle is left *)
+  Theorem append_lower_dir_fails (s0 s1 : mstate) hs (p : path) f :
+    wf s0 -> p <> [] -> reachable s0 s1 p ->
+    s0 !! p = None -> s0 !! marker p = None -> s1 !! p = Some f -> f_type f = Dir ->
+    exists s0' e,
+      run bhandler (ovl_impl top lower (CAppendFile p)) (S2 s0 s1 hs) = (S2 s0' s1 hs, Err e) /\
+      wf s0' /\ s0' !! p = None /\
+      forall q, user_path q -> view s0' s1 q = view s0 s1 q.
+  Proof.
+    intros Hwf Hp [Hup Hvis] Hup0 Hm Hlow Hty.
+    destruct (ensure_parent_deep s0 s1 hs p Hwf Hp Hvis) as (sa & Hrun & Hpar & Hwfa & Hdirs & Hsame).
+    pose proof (copyup_view s0 s1 sa (removelast p) (user_parent_head p Hup) Hvis Hdirs Hsame) as Hview.
+    assert (Hpnot : p ∉ prefixes (removelast p)) by (apply not_prefix_of_parent; exact Hp).
+    assert (Hmnot : marker p ∉ prefixes (removelast p)).
+    { intros Hin. apply prefixes_head in Hin. rewrite marker_head in Hin.
+      destruct (user_parent_head p Hup) as [E|E]; [rewrite E in Hin; discriminate|congruence]. }
+    assert (Hsap : sa !! p = None) by (rewrite (Hsame p Hpnot); exact Hup0).
+    assert (Hsam : sa !! marker p = None) by (rewrite (Hsame _ Hmnot); exact Hm).
+    cbn [ovl_impl]. unfold write_path. cbn [fst snd app].
+    unfold bind_res at 1. rewrite run_bind, exists0, Hup0.
+    rewrite bool_decide_eq_false_2 by (intros [? ?]; discriminate).
+    unfold bind_res at 1. rewrite run_bind.
+    unfold bind_res at 1. rewrite run_bind, Hrun.
+    unfold bind_res at 1. rewrite run_bind, (read_path_rule hs lg ft sa s1 p Hp), Hsap, Hsam, Hlow.
+    repeat (rewrite bool_decide_eq_false_2 by (intros [? ?]; discriminate)).
+    rewrite bool_decide_eq_true_2 by eauto. cbn [fst snd].
+    destruct (copy_file_across_fails_early lg ft sa s1 hs p p) as (e & ->); [|exact Hsap|].
+    { intros g Hg. rewrite Hlow in Hg. now inversion Hg; subst. }
+    cbn [run]. exists sa, e. split; [reflexivity|]. split; [exact Hwfa|]. split; [exact Hsap|].
+    intros q _. apply Hview.
+  Qed.
+
   (** ** C10: what was deleted stays deleted across later operations on OTHER paths.
       [view_step p a b]: going from write-layer state a to b changes what the overlay shows at no path of the
       caller's namespace but p.  Each of the calls above is such a step for the path it names; along any chain of
